@@ -11,7 +11,7 @@ from ..core import REPO
 from ..gen_expr import dataset
 from ..refeval import Seq, evaluate, norm
 
-N_CASES = {"quick": 250, "thorough": 300000}
+N_CASES = {"quick": 600, "thorough": 300000}
 TIME_BUDGET = {"quick": 60, "thorough": 270}
 META = {
     "rule": "(A) generated single-for list comprehensions and generator expressions with 0-4 if clauses, nested in element / iterable / "
